@@ -12,19 +12,20 @@ from ..core import AnalysisError, own_nodes, norm
 from .. import roles
 from . import C05
 
-LEVEL_TEXT = ('static analysis: (D1) center_all interpreted on a symbolic table (two autosomes, X, PAR-X, Y, PAR-Y, a mitochondrial and an '
-              'unplaced contig, two null-coverage bins: depth 0, and a tiny depth with the placeholder log2) with an opaque estimator: every bin '
-              'is shifted by one and the same term, minus the estimator applied -- per chromosome first, then across the per-chromosome values, '
-              'or directly when by_chrom is off -- to exactly the autosomal bins (plus PAR-X iff a PAR genome is given; minus null-coverage bins '
-              'iff skip_low); (D2) the estimator names mean / median / mode / biweight are bound to the named functions, equal the CLI choices, '
-              'and any other string raises; (D3) shift_xx moves X by -1 iff (female sample, male reference), +1 iff (male sample, female '
-              'reference), nothing else, on a copy; the flat reference profile (C05-D2 rule: autosomes 0, Y -1 incl. PAR-Y for a female '
-              "reference, X -1 iff male reference); guess_xx returns the negation of compare_sex_chromosomes' maleness verdict (None passed on) "
-              '-- of this call: asked twice on one array with another reference sex the second answer follows the second verdict and the metadata'
-              ' is not extended; the `sex` report prints Male iff that verdict; and the decision skeleton of compare_sex_chromosomes on noise-'
-              "free levels (its median-difference path): X / Y at the levels expected for the sample's sex under either reference sex, with or "
-              "without chrY, is classified as that sex; (D4) the sex / PAR flags reach same-role parameters. Does not decide the Mood's-median-"
-              'test inference under noise (statistical).')
+LEVEL_TEXT = ('static analysis: (D1) center_all interpreted on a symbolic table (two autosomes, X, PAR-X, Y, PAR-Y, a mitochondrial, an unplaced,'
+              ' a *_random and an unprefixed decoy contig, two null-coverage bins: depth 0, and a tiny depth with the placeholder log2) with an '
+              'opaque estimator: every bin is shifted by one and the same term, minus the estimator applied -- per chromosome first, then across '
+              'the per-chromosome values, or directly when by_chrom is off -- to exactly the autosomal bins (plus PAR-X iff a PAR genome is '
+              'given; minus null-coverage bins iff skip_low); (D2) the estimator names mean / median / mode / biweight are bound to the named '
+              'functions, equal the CLI choices, and any other string raises; (D3) shift_xx moves X by -1 iff (female sample, male reference), +1'
+              ' iff (male sample, female reference), nothing else, on a copy; the flat reference profile (C05-D2 rule: autosomes 0, Y -1 incl. '
+              "PAR-Y for a female reference, X -1 iff male reference); guess_xx returns the negation of compare_sex_chromosomes' maleness verdict"
+              ' (None passed on) -- of this call: asked twice on one array with another reference sex the second answer follows the second '
+              'verdict and the metadata is not extended; the `sex` report prints Male iff that verdict; and the decision skeleton of '
+              "compare_sex_chromosomes on noise-free levels (its median-difference path): X / Y at the levels expected for the sample's sex under"
+              ' either reference sex, with or without chrY, is classified as that sex; (D3c) verify_sample_sex returns the stated sex whenever '
+              'one is stated (x / y / f / m / female / male), else the inferred one; (D4) the sex / PAR flags reach same-role parameters. Does '
+              "not decide the Mood's-median-test inference under noise (statistical).")
 TECHNIQUE = "abstract interpretation with an opaque estimator (uniform-shift identity, argument provenance); registry agreement; decision tables; role-flow"
 
 CNA = "cnvlib.cnary.CopyNumArray"
